@@ -29,12 +29,13 @@ from prompt_toolkit.styles.style import _expand_classname, _parse_style_str, par
 ID = "C19"
 DRIVER = "drv_c19"
 PROPS = ["Ptk.Props.C19", "Ptk.Props.C19Cascade", "Ptk.Props.C19Color", "Ptk.Props.C19Sgr", "Ptk.Props.C19Depth",
-         "Ptk.Props.C19Style", "Ptk.Props.C19Valid"]
+         "Ptk.Props.C19Style", "Ptk.Props.C19Valid", "Ptk.Props.C19Merge"]
 LEVEL_TEXT = ("Lean 4 theorems over an executable model of styles/style.py (parse_color, _parse_style_str, Style, "
               "get_attrs_for_style_str with the combos construction, _merge_attrs, merge_styles), output/vt100.py "
               "(_get_closest_ansi_color, _16/_256ColorCache, _EscapeCodeCache) and formatted_text/ansi.py (ANSI parser, "
               "_select_graphic_rendition, _create_style_string): last-wins cascade with every attribute concrete, a rule "
-              "takes part iff all its classes occur, merged sheets = concatenated rule tables, argmin lemma for any "
+              "takes part iff all its classes occur, merged sheets = concatenated rule tables, merging is pure over "
+              "shared sheet objects (heap model of list.extend), argmin lemma for any "
               "palette (nearest, first on ties, exact colours fixed), 24-bit escape -> ANSI -> style string -> Attrs is "
               "the identity on canonical attributes, 8/4/1-bit escapes decode to the nearest palette colour / ANSI name / "
               "no colour; side conditions are re-decided by the kernel on tables regenerated from /repo on every run and "
@@ -44,7 +45,9 @@ LEVEL_NOTE = ("trusted: Lean kernel, axioms propext/Classical.choice/Quot.sound 
 TECHNIQUE = "machine-checked proof (Lean 4) + generated tables + differential correspondence + property oracle"
 RULE = ("exhaustive: every rule list up to the tier bound over 6 class-name sets x 3 attribute sets, every style "
         "string up to 3 parts over 7 parts (single, dotted, comma-combined classes, inline attributes), every "
-        "contiguous split of the rule lists into 2-3 merged sheets; all 128 flag tuples x colour pairs x 4 depths; "
+        "contiguous split of the rule lists into 2-3 merged sheets; every session of <=3 merge/sheet queries over 10 "
+        "targets sharing three Style objects (same first sheet in different merges, sheet alone before/after, "
+        "repeated evaluation, .style_rules reads); all 128 flag tuples x colour pairs x 4 depths; "
         "RGB grid + palette neighbourhoods (thorough: all 256^3 triples for the 256-colour map); then seeded "
         "random sheets / style strings / attrs / SGR parameter lists incl. malformed ones. A case is non-trivial "
         "when at least one rule or inline part applies, resp. the colour is not an exact palette entry")
@@ -122,6 +125,17 @@ def model_lines(case):
         d = enc_attrs(case.get("default") or DEFAULT_LIST)
         sh = enc_sheets(case["sheets"])
         return [f"q {d} {sh} {enc_str(s)}" for s in case["strs"]]
+    if k == "sess":
+        d = enc_attrs(case.get("default") or DEFAULT_LIST)
+        out = ["new"]
+        for sh in case["sheets"]:
+            out.append("sheet " + " ".join([str(len(sh))] + [enc_str(x) for r in sh for x in r]))
+        for op in case["ops"]:
+            tgt = op[1]
+            t = f"S {tgt[1]}" if tgt[0] == "S" else \
+                "M " + " ".join([str(len(tgt[1]))] + ["N" if i is None else str(i) for i in tgt[1]])
+            out.append(f"sq {d} {t} {enc_str(op[2])}" if op[0] == "q" else f"srules {t}")
+        return out
     if k in ("pc", "ps", "ex", "hex", "ansi"):
         return [f"{k} {enc_str(t)}" for t in case["texts"]]
     if k == "c256":
@@ -235,8 +249,44 @@ def real_row(r, g):
     return _row_memo[(r, g)]
 
 
+def enc_rules(rules) -> str:
+    return core.enc_list(list(rules), lambda r: enc_str(r[0]) + " " + enc_str(r[1]))
+
+
+def run_session(case):
+    """One session over SHARED style objects: every sheet is built once, merges of the same parts are
+    reused unless marked fresh; returns (answers per op, sheets) with answers = Attrs | 'err:..' | rule list."""
+    sheets = [Style([tuple(r) for r in sh]) for sh in case["sheets"]]
+    dflt = mk_default(case)
+    merges = {}
+    answers = []
+    for op in case["ops"]:
+        tgt = op[1]
+        if tgt[0] == "S":
+            obj = sheets[tgt[1]]
+        else:
+            key = tuple(tgt[1])
+            if (len(tgt) > 2 and tgt[2]) or key not in merges:
+                merges[key] = merge_styles([None if i is None else sheets[i] for i in tgt[1]])
+            obj = merges[key]
+        if op[0] == "q":
+            try:
+                answers.append(obj.get_attrs_for_style_str(op[2], dflt))
+            except ValueError:
+                answers.append("err:ValueError")
+        else:
+            answers.append([tuple(r) for r in obj.style_rules])
+    return answers, sheets
+
+
 def impl_lines(case):
     k = case["k"]
+    if k == "sess":
+        answers, _ = run_session(case)
+        out = ["ok"] + [f"ok {i}" for i in range(len(case["sheets"]))]
+        for a in answers:
+            out.append(a if isinstance(a, str) else enc_rules(a) if isinstance(a, list) else enc_attrs(a))
+        return out
     if k == "q":
         res, _ = q_results(case)
         return [r if isinstance(r, str) else enc_attrs(r) for r in res]
@@ -591,10 +641,45 @@ def oracle_esc(case):
     return v
 
 
+def oracle_sess(case):
+    """merging is the same as ONE sheet with the rules concatenated - also when sheet objects take part
+    in several merges / are queried alone in between - and merging leaves the sheets' own rules alone."""
+    v = []
+    answers, sheets = run_session(case)
+    orig = [[tuple(r) for r in sh] for sh in case["sheets"]]
+    dflt = mk_default(case)
+    for n, (op, a) in enumerate(zip(case["ops"], answers)):
+        tgt = op[1]
+        parts = [tgt[1]] if tgt[0] == "S" else [i for i in tgt[1] if i is not None]
+        want_rules = [r for i in parts for r in orig[i]]
+        what = "sheet" if tgt[0] == "S" else "merge_styles"
+        if op[0] == "q":
+            try:
+                want = Style(list(want_rules)).get_attrs_for_style_str(op[2], dflt)
+            except ValueError:
+                want = "err:ValueError"
+            if a != want:
+                v.append({"signature": f"{what} | differs from concatenated sheet after earlier merges",
+                          "msg": f"sheets={case['sheets']!r} ops={case['ops'][:n + 1]!r}: step {n} gives {a}, one sheet "
+                                 f"with the concatenated rules {want_rules!r} gives {want}"})
+        elif a != want_rules:
+            v.append({"signature": f"{what} | style_rules is not the concatenation of the constituent rules",
+                      "msg": f"sheets={case['sheets']!r} ops={case['ops'][:n + 1]!r}: step {n} style_rules={a!r}, "
+                             f"expected {want_rules!r}"})
+    for i, st in enumerate(sheets):
+        if [tuple(r) for r in st.style_rules] != orig[i]:
+            v.append({"signature": "merge_styles | a constituent sheet's style_rules changed",
+                      "msg": f"sheets={case['sheets']!r} ops={case['ops']!r}: sheet {i} now has style_rules="
+                             f"{list(st.style_rules)!r}"})
+    return v
+
+
 def oracle(case):
     k = case["k"]
     v = []
-    if k == "q":
+    if k == "sess":
+        v = oracle_sess(case)
+    elif k == "q":
         v = oracle_q(case)
     elif k == "c256":
         for rgb in case["rgbs"]:
@@ -864,6 +949,45 @@ def _cases(tier, rng):
                 if rng.random() < 0.3:
                     sheets.insert(rng.randrange(len(sheets) + 1), None)
                 yield {"k": "q", "sheets": sheets, "strs": strs2}
+    # --- sessions over shared sheet objects ------------------------------------------------
+    sess_sheets = [[["x", "fg:#ff0000"], ["y", "underline"]], [["x", "bold"], ["x y", "bg:#00ff00"]],
+                   [["x", "italic"], ["", "blink"]]]
+    targets = [["S", 0], ["S", 1], ["M", [0, 1]], ["M", [0, 2]], ["M", [0, 2, 1]], ["M", [1, 0]], ["M", [0]],
+               ["M", [None, 0, 2]], ["M", [2, None, 0]], ["M", [0, 0]]]
+    sstrs = ["class:x class:y", "class:y,x nobold", ""]
+    for ln in (1, 2, 3):
+        for combo in itertools.product(range(len(targets)), repeat=ln):
+            ops = []
+            for j, ti in enumerate(combo):
+                ops.append(["q", targets[ti], sstrs[(ti + j) % len(sstrs)]])
+                if (ti + j) % 3 == 0:
+                    ops.append(["rules", targets[ti]])
+            ops += [["rules", ["S", 0]], ["q", ["S", 0], "class:x class:y"], ["q", ["M", [0, 2]], "class:x class:y"]]
+            yield {"k": "sess", "sheets": sess_sheets, "ops": ops}
+    ok_names = ["", "a", "b", "c", "a.x", "a b", "b a.x", "b.y"]
+    ok_styles = ["bold", "nobold", "italic", "#ff0000", "bg:#00ff00", "underline fg:ansiblue", "noinherit",
+                 "reverse bg:ansired", "#abc hidden", "fg:default strike"]
+    for _ in range(150 if quick else 4000):
+        nsh = rng.choice([2, 3, 3, 4])
+        shs = [[[rng.choice(ok_names), rng.choice(ok_styles)] for _ in range(rng.choice([0, 1, 2, 3]))]
+               for _ in range(nsh)]
+        ops = []
+        for _ in range(rng.choice([3, 5, 8, 12])):
+            if rng.random() < 0.3:
+                tgt = ["S", rng.randrange(nsh)]
+            else:
+                parts = [rng.choice([None] + list(range(nsh)) * 3) for _ in range(rng.choice([1, 2, 2, 3, 4]))]
+                if rng.random() < 0.5:
+                    parts[0] = 0 if rng.random() < 0.6 else rng.randrange(nsh)
+                tgt = ["M", parts, rng.random() < 0.3]
+            if rng.random() < 0.25:
+                ops.append(["rules", tgt])
+            else:
+                ops.append(["q", tgt, rand_style(rng, R_PARTS[:15] + ["bold", "#00f", "nobold"], 4)])
+        c = {"k": "sess", "sheets": shs, "ops": ops}
+        if rng.random() < 0.15:
+            c["default"] = rand_attrs(rng, False)
+        yield c
     # non-default `default` argument incl. None fields
     for d in ([None, None] + [None] * 7, ["ansiblue", None, True, None, False, None, None, True, None],
               ["", "ff00ff", False, True, True, False, False, False, True]):
@@ -950,7 +1074,7 @@ def _cases(tier, rng):
 
 def sample_view(case):
     c = dict(case)
-    for key in ("strs", "texts", "rgbs", "items", "attrs", "gs"):
+    for key in ("strs", "texts", "rgbs", "items", "attrs", "gs", "ops"):
         if key in c and len(c[key]) > 4:
             c[key] = list(c[key][:4]) + [f"... {len(case[key])} in total"]
     return c
@@ -960,6 +1084,8 @@ def nontrivial(case):
     k = case["k"]
     if k == "q":
         return any(s for s in case["sheets"] if s) and any(case["strs"])
+    if k == "sess":
+        return sum(1 for op in case["ops"] if op[1][0] == "M") >= 2
     return True
 
 
@@ -971,6 +1097,10 @@ def distribution(cases_):
         d["kind"][k] = d["kind"].get(k, 0) + 1
         n = len(model_lines(c)) * (256 if k == "c256row" else 1)
         d["lines"][k] = d["lines"].get(k, 0) + n
+        if k == "sess":
+            d.setdefault("session_ops", {})
+            key = str(len(c["ops"]))
+            d["session_ops"][key] = d["session_ops"].get(key, 0) + 1
         if k == "q":
             nr = sum(len(s) for s in c["sheets"] if s)
             d["rules_per_query"][str(nr)] = d["rules_per_query"].get(str(nr), 0) + 1
